@@ -222,10 +222,23 @@ var rHideKeep = &Rule{
 				if callee := sx.Callee(call); callee != nil && callee.Name() == "GetSafeDetails" && p.InModule(callee) {
 					if derivesFromField(call.Call.Args[0], f, 0) && flowsToReturn(call, sd) {
 						ok = true
+						// inside a chain loop: on every iteration (no layer skipped)
+						for _, l := range naturalLoops(sd) {
+							if !l.Body[call.Block()] {
+								continue
+							}
+							for b := range l.Body {
+								for _, sc := range b.Succs {
+									if sc == l.Header && !call.Block().Dominates(b) {
+										ok = false
+									}
+								}
+							}
+						}
 					}
 				}
 			})
-			c.Check(ok, name+" in SafeDetails()", sd.Pos(), "GetSafeDetails(hidden chain) flows to the returned details", "SafeDetails() no longer folds the hidden chain's safe details into its own")
+			c.Check(ok, name+" in SafeDetails()", sd.Pos(), "GetSafeDetails(hidden chain) flows to the returned details, for every layer of the hidden chain", "SafeDetails() no longer folds the safe details of every layer of the hidden chain into its own")
 		}
 	},
 }
